@@ -1,15 +1,19 @@
 import PwVerif.Model.Cache
 import PwVerif.Model.CacheTree
+import PwVerif.Model.CacheForest
 import PwVerif.Model.Proto
 open PwVerif.Cache PwVerif.Proto
 open PwVerif.CacheTree (T Src K KidK KCfg Sem St)
+open PwVerif.CacheForest (TC Kids Root)
 
 /-! Driver for C05.
 Node level: `beh v:kind …`, then `set v | run | submit | complete | clearfailed | cancel | drop | resetrunning`;
 every op prints `R …` (/repo before b54ba0f), `S …` (after b54ba0f) and `N …` (/repo now: + f3b0474), cached and
 uncached twin each.
 Composite level: `tleaf | tcomp | tsetin | tremove | treplace` at a path, `trun` prints, for the current key (`Tcur`)
-and the proposed key (`Tprop`): hit or miss, what the cached composite and its cache-free twin return, and the key. -/
+and the proposed key (`Tprop`): hit or miss, what the cached composite and its cache-free twin return, and the key;
+and for the whole tree of caches (`F`, `Model/CacheForest.lean`, key as /repo has it now): hit or miss of the root, the
+outputs of its children, and which function nodes actually executed (everything else answered from some cache). -/
 
 structure DSt where
   beh : List (Nat × Outcome)
@@ -21,10 +25,11 @@ structure DSt where
   nu : N   -- now, uncached
   cur : St String
   prop : St String
+  forest : Root String
 
 def St0 : St String := { vals := [], kids := [], outs := [], cache := none }
 def DSt.init : DSt :=
-  { beh := [], rc := N.init, ru := N.init, sc := N.init, su := N.init, nc := N.init, nu := N.init, cur := St0, prop := St0 }
+  { beh := [], rc := N.init, ru := N.init, sc := N.init, su := N.init, nc := N.init, nu := N.init, cur := St0, prop := St0, forest := { kids := [], cache := none } }
 
 def showR : R → String
   | .ret none => "ret:ND"
@@ -120,13 +125,37 @@ def kidsAt : List Nat → List (Nat × T) → List (Nat × T)
     | some (.comp _ _ ks) => kidsAt p ks
     | _ => []
 
-/-- an edit of the children of the composite at `path`; `structural` = made through add/remove/replace_child -/
-def editTree (s : DSt) (path : List Nat) (structural : Bool) (f : List (Nat × T) → List (Nat × T)) : DSt :=
+/-- an edit of the children of the composite at `path`; `structural` = made through add/remove/replace_child.
+`gc` is the same edit on the tree with all its caches. -/
+def editTree (s : DSt) (path : List Nat) (structural : Bool) (f : List (Nat × T) → List (Nat × T))
+    (gc : Kids String → Kids String) : DSt :=
   let g := fun (st : St String) =>
     let kids := PwVerif.CacheTree.atPath f path st.kids
     let op : PwVerif.CacheTree.Op String := if structural && path.isEmpty then .structural kids else .edit kids
     (PwVerif.CacheTree.step strSem KCfg.current FUEL true st op).1
-  { s with cur := g s.cur, prop := g s.prop }
+  let fr : Root String :=
+    { kids := PwVerif.CacheForest.atPathC structural gc path s.forest.kids,
+      cache := if structural && path.isEmpty then none else s.forest.cache }
+  { s with cur := g s.cur, prop := g s.prop, forest := fr }
+
+/-- the function nodes whose cache entry changed in a run = those that executed (a hit leaves it, a miss rewrites it) -/
+partial def executed : Kids String → Kids String → List String
+  | (_, .leaf c _ _ c0) :: r0, (_, .leaf _ _ o1 c1) :: r1 =>
+    (if c0 != c1 && c != 99 then [o1] else []) ++ executed r0 r1
+  | (_, .comp _ _ k0 _ _) :: r0, (_, .comp _ _ k1 _ _) :: r1 => executed k0 k1 ++ executed r0 r1
+  | _, _ => []
+
+def insertSorted (x : String) : List String → List String
+  | [] => [x]
+  | y :: ys => if x ≤ y then x :: y :: ys else y :: insertSorted x ys
+
+def forestRun (s : DSt) : DSt × List String :=
+  let h := s.forest.hit KCfg.proposed
+  match PwVerif.CacheForest.stepC strSem KCfg.proposed FUEL s.forest .run with
+  | some (r', some outs) =>
+    let calls := (executed s.forest.kids r'.kids).foldr insertSorted []
+    ({ s with forest := r' }, [s!"F hit={h} c={showOuts outs} calls={",".intercalate calls}"])
+  | _ => (s, ["F none"])
 
 def treeRun (s : DSt) : DSt × List String :=
   let one := fun (c : KCfg) (st : St String) (tag : String) =>
@@ -137,7 +166,8 @@ def treeRun (s : DSt) : DSt × List String :=
            s!"{tag}key {showK (PwVerif.CacheTree.key c st.kids)}"])
   let (cur, l1) := one KCfg.current s.cur "Tcur"
   let (prop, l2) := one KCfg.proposed s.prop "Tprop"
-  ({ s with cur, prop }, l1 ++ l2)
+  let (s', l3) := forestRun s
+  ({ s' with cur, prop }, l1 ++ l2 ++ l3)
 
 def step' (s : DSt) (ws : List String) : DSt × List String :=
   match ws with
@@ -158,28 +188,31 @@ def step' (s : DSt) (ws : List String) : DSt × List String :=
     match parsePath p, l.toNat?, c.toNat?, srcs.mapM parseSrc with
     | some p, some l, some c, some srcs =>
       if pathOk p s.cur.kids && !hasKid l (kidsAt p s.cur.kids) then
-        (editTree s p true (fun ks => ks ++ [(l, .leaf c srcs)]), [])
+        (editTree s p true (fun ks => ks ++ [(l, .leaf c srcs)])
+          (fun ks => ks ++ [(l, PwVerif.CacheForest.freshLeaf strSem c srcs)]), [])
       else (s, ["bad-op"])
     | _, _, _, _ => (s, ["bad-op"])
   | "tcomp" :: p :: l :: r :: srcs =>
     match parsePath p, l.toNat?, r.toNat?, srcs.mapM parseSrc with
     | some p, some l, some r, some srcs =>
       if pathOk p s.cur.kids && !hasKid l (kidsAt p s.cur.kids) then
-        (editTree s p true (fun ks => ks ++ [(l, .comp r srcs [])]), [])
+        (editTree s p true (fun ks => ks ++ [(l, .comp r srcs [])])
+          (fun ks => ks ++ [(l, .comp r srcs [] strSem.nd none)]), [])
       else (s, ["bad-op"])
     | _, _, _, _ => (s, ["bad-op"])
   | ["tsetin", p, l, i, src] =>
     match parsePath p, l.toNat?, i.toNat?, parseSrc src with
     | some p, some l, some i, some src =>
       if pathOk p s.cur.kids && hasKid l (kidsAt p s.cur.kids) then
-        (editTree s p false (PwVerif.CacheTree.mapKid l (T.setIn i src)), [])
+        (editTree s p false (PwVerif.CacheTree.mapKid l (T.setIn i src))
+          (PwVerif.CacheForest.mapKidC l (TC.setIn i src)), [])
       else (s, ["bad-op"])
     | _, _, _, _ => (s, ["bad-op"])
   | ["tremove", p, l] =>
     match parsePath p, l.toNat? with
     | some p, some l =>
       if pathOk p s.cur.kids && hasKid l (kidsAt p s.cur.kids) then
-        (editTree s p true (PwVerif.CacheTree.removeKid l), [])
+        (editTree s p true (PwVerif.CacheTree.removeKid l) (PwVerif.CacheForest.removeKidC l), [])
       else (s, ["bad-op"])
     | _, _ => (s, ["bad-op"])
   | ["treplace", p, l, c] =>
@@ -189,14 +222,12 @@ def step' (s : DSt) (ws : List String) : DSt × List String :=
       | some (.leaf _ ins) =>
         if pathOk p s.cur.kids then
           -- `replace_child` = remove + add: the replacement (same label, same IO) goes to the end of the dictionary
-          (editTree s p true (fun ks => PwVerif.CacheTree.removeKid l ks ++ [(l, .leaf c ins)]), [])
+          (editTree s p true (fun ks => PwVerif.CacheTree.removeKid l ks ++ [(l, .leaf c ins)])
+            (fun ks => PwVerif.CacheForest.removeKidC l ks ++ [(l, PwVerif.CacheForest.freshLeaf strSem c ins)]), [])
         else (s, ["bad-op"])
       | _ => (s, ["bad-op"])
     | _, _, _ => (s, ["bad-op"])
   | ["trun"] => treeRun s
-  -- the code missed for a reason outside the model (values last pushed through value links lag one run behind):
-  -- the model drops its entry too; a hit of the code (`trun`) is always decided by the model itself
-  | ["trun", "miss"] => treeRun { s with cur := { s.cur with cache := none }, prop := { s.prop with cache := none } }
   | _ => (s, ["bad-op"])
 
 def main : IO Unit := PwVerif.Proto.run DSt.init step'
